@@ -52,7 +52,7 @@ def _ops():
 
 def strategy(tier: str):
     return st.fixed_dictionaries(
-        {"version": gen.versions, "ids": _ids, "install": st.sampled_from(("direct", "presented")), "ops": _ops(), "listen_mode": st.sampled_from(("fresh", "persistent"))}
+        {"version": gen.versions_any, "ids": _ids, "install": st.sampled_from(("direct", "presented")), "ops": _ops(), "listen_mode": st.sampled_from(("fresh", "persistent"))}
     )
 
 
